@@ -660,7 +660,71 @@ pub fn c07_unflushed_answers_at_hangup(rec: &mut Rec, rng: &mut Rng, answered_be
     sim.w.teardown();
 }
 
+/// aimed (seed-independent): a large answer to A is only partly written (A is not reading yet) when answers to B and C
+/// are supplied and written; then A drains. Every byte each client receives belongs to ITS answer — nothing about a
+/// half-written response may live anywhere but in its own connection
+pub fn c07_partial_write_while_others_are_answered(rec: &mut Rec, rng: &mut Rng, big: usize) {
+    rec.case("routing-partial-write-interleaved");
+    rec.nontrivial();
+    let mut cfg = Cfg::base("C07");
+    cfg.max_clients = 4;
+    let mut sim = Sim::new(rec, cfg);
+    let a = sim.connect(rec);
+    let b = sim.connect(rec);
+    let c = sim.connect(rec);
+    for _ in 0..3 {
+        sim.poll(rec);
+    }
+    for i in [a, b, c] {
+        sim.send_next(rec, rng, i);
+        while !sim.plans[i].outq.is_empty() {
+            sim.send_next(rec, rng, i);
+        }
+    }
+    for _ in 0..4 {
+        sim.poll(rec);
+    }
+    // A's answer: far larger than the socket buffer, body made of a byte no other answer contains
+    if let Some(k) = sim.w.held.iter().position(|h| h.client == Some(a)) {
+        let t = sim.w.held[k].tag.clone();
+        let mut body = format!("{}:", t).into_bytes();
+        body.extend(std::iter::repeat(b'A').take(big));
+        sim.plans[a].answered.push(t);
+        sim.w.respond(rec, k, &RespSpec { v11: true, code: 200, ops: vec![BOp::Body(body)] });
+    }
+    sim.poll(rec);
+    // B and C are answered (and read) while A's answer is stuck half-way
+    for i in [b, c] {
+        while let Some(k) = sim.w.held.iter().position(|h| h.client == Some(i)) {
+            let t = sim.w.held[k].tag.clone();
+            let mut body = format!("{}:", t).into_bytes();
+            body.extend(std::iter::repeat(b'b').take(300 + 7 * i));
+            sim.plans[i].answered.push(t);
+            sim.w.respond(rec, k, &RespSpec { v11: true, code: 200, ops: vec![BOp::Body(body)] });
+            sim.poll(rec);
+        }
+        sim.w.client_read(rec, i);
+    }
+    // now A drains
+    for _ in 0..(big / 60_000 + 6) {
+        sim.w.client_read(rec, a);
+        sim.poll(rec);
+    }
+    sim.w.client_read(rec, a);
+    let (resps, leftover) = split_responses(&sim.w.clients[a].received);
+    let clean = resps.len() == 1 && leftover == 0 && resps[0].1.iter().skip_while(|x| **x != b':').skip(1).all(|x| *x == b'A');
+    if !clean {
+        rec.oracle_fail("C07", &format!("client A received {} responses (+{} stray bytes); its large answer must arrive intact although other clients were answered while it was half-written", resps.len(), leftover), &sim.w.log);
+    }
+    sim.settle(rec, rng);
+    common_checks(rec, &mut sim, "C07");
+    sim.w.teardown();
+}
+
 pub fn c07(rec: &mut Rec, rng: &mut Rng, thorough: bool) {
+    for big in [300_000usize, 900_000] {
+        c07_partial_write_while_others_are_answered(rec, rng, big);
+    }
     for answered_before in 0..=2 {
         for leave in 0..3 {
             c07_unflushed_answers_at_hangup(rec, rng, answered_before, leave, false);
